@@ -124,13 +124,31 @@ func c30(c *core.Ctx) {
 				}
 				n++
 				ok2 := false
+				overwritten := ""
 				for _, o := range ssax.Origins(st.Val, nil, 0) {
 					if o.Field == t.src {
 						// base: range element of enabledSec
 						ok2 = true
+						// the copy of the configured pair the endpoint is built from must not be modified
+						// (it lives across the iterations of the inner loops)
+						if cell, isCell := ssax.Strip(o.Base).(*ssa.Alloc); isCell {
+							for _, b := range initEP.Blocks {
+								for _, in := range b.Instrs {
+									if w, isSt := in.(*ssa.Store); isSt {
+										if fa, isFA := w.Addr.(*ssa.FieldAddr); isFA && fa.X == ssa.Value(cell) {
+											overwritten = "the configured pair is overwritten at " + pos(c, w) + " (" + ssax.Path(w.Addr) + ") before later endpoints are built from it"
+										}
+									}
+								}
+							}
+						}
 					}
 				}
-				c.Ob("C30.advertise", fname(initEP)+"·EndpointDescription."+t.dst.Name(), pos(c, st), ok2, "taken from an enabledSec element: "+boolStr(ok2))
+				d := "taken from an enabledSec element: " + boolStr(ok2)
+				if overwritten != "" {
+					d += "; " + overwritten
+				}
+				c.Ob("C30.advertise", fname(initEP)+"·EndpointDescription."+t.dst.Name(), pos(c, st), ok2 && overwritten == "", d)
 			}
 			if n == 0 {
 				c.Ob("C30.advertise", fname(initEP)+"·EndpointDescription."+t.dst.Name(), c.P.Pos(initEP.Pos()), false, "endpoint field is never set from the enabled pairs")
